@@ -277,6 +277,73 @@ def _state_digest(model):
     return digest({k: v for k, v in st.items() if k not in ('attr_dict', 'scale')})
 
 
+# ================================================================ section: the same data at another scale
+def _build_adaptive_scaled(layout, f):
+    import elfi
+    m = R.n_cols(layout)
+    model = elfi.ElfiModel(name='c12s')
+    Y = elfi.Simulator(sim_none, model=model, name='Y', observed=np.zeros((1, 1)))
+    obs = R.observed_values(layout, [v * f for v in ADAPT_OBS[:m]], 'row')
+    S = [elfi.Summary(ident, Y, model=model, name='S%d' % i, observed=obs[i]) for i in range(len(layout))]
+    elfi.AdaptiveDistance(*S, model=model, name='d')
+    return model
+
+
+@guarded('C12')
+def run_scaled(case):
+    """Summaries, observation and test batches multiplied by a binary-exact factor: the adapted scale is multiplied by
+    the factor and the distances are unchanged (an absolute tolerance anywhere in the adaptation breaks this)."""
+    layout, m = case['layout'], R.n_cols(case['layout'])
+    rows = [r[:m] for r in case['rows']]
+    outs = {}
+    for f in [1.0] + [float(x) for x in case['factors']]:
+        model = _build_adaptive_scaled(layout, f)
+        k = 0
+        for c in case['comp']:
+            model['d'].add_data(*R.split_columns(layout, [[v * f for v in r] for r in rows[k:k + c]], float))
+            k += c
+        scale = np.array(model['d'].state['scale'], dtype=float)
+        model['d'].update_distance()
+        d = []
+        for tb in TEST_BATCHES:
+            tb = [[v * f for v in r[:m]] for r in tb]
+            wv = {'S%d' % i: a for i, a in enumerate(R.split_columns(layout, tb, float))}
+            d.append(np.asarray(model.generate(len(tb), ['d'], with_values=wv)['d'], dtype=float))
+        outs[f] = (scale, d)
+    s1, d1 = outs[1.0]
+    for f, (sf, df) in outs.items():
+        if f == 1.0:
+            continue
+        if sf.shape != s1.shape or not np.allclose(sf, s1 * f, rtol=1e-12, atol=0):
+            return bad('C12:adaptive:scale-not-equivariant-under-rescaling-of-the-summaries',
+                       {'witness_case': case, 'factor': f, 'scale': sf.tolist(), 'expected': (s1 * f).tolist()})
+        # column 0 is the distance under the initial unit weights (it scales with the data), column 1 the adapted one
+        def same(a, b):
+            return a.shape == b.shape and a.ndim == 2 and a.shape[1] == 2 and \
+                np.allclose(a[:, 0], b[:, 0] * f, rtol=1e-12, atol=0) and np.allclose(a[:, 1], b[:, 1], rtol=1e-12, atol=0)
+        if not all(same(a, b) for a, b in zip(df, d1)):
+            return bad('C12:adaptive:distance-changes-under-common-rescaling',
+                       {'witness_case': case, 'factor': f, 'got': [a.tolist() for a in df],
+                        'unscaled': [a.tolist() for a in d1]})
+    r = ok(outcome=digest([a.tolist() for a in d1]), rescaled_adaptations=len(outs) - 1)
+    r.update(evals=len(outs), distinct=len(outs))
+    return r
+
+
+def scaled_cases(ctx):
+    cases = []
+    for layout in (['ss', 'v'] if ctx.quick else ['ss', 'v', 'sv', 'cs', 's']):
+        m = R.n_cols(layout)
+        grid = COL_GRIDS['g3']
+        for rows in ([list(r) for r in zip(*[grid[j % 3] for j in range(3)])],
+                     PRE_ROWS, PRE_ROWS[::-1] + PROBE_ROWS):
+            n = len(rows)
+            for comp in ([n], [1] * n, [1, n - 1]):
+                cases.append({'kind': 'scaled', 'layout': layout, 'rows': rows, 'comp': comp,
+                              'factors': [2.0 ** -30, 2.0 ** -12, 2.0 ** 30]})
+    return cases
+
+
 # ================================================================ section H1: partitions of one round
 def _pre(model, layout, dt, pre):
     if pre == 'fresh':
@@ -670,7 +737,7 @@ def run_sampler(case):
 
 
 # ================================================================ driver
-RUNNERS = {'distance': run_distance, 'partition': run_partition, 'rounds': run_rounds, 'seqs': run_seqs,
+RUNNERS = {'distance': run_distance, 'partition': run_partition, 'scaled': run_scaled, 'rounds': run_rounds, 'seqs': run_seqs,
            'sampler': run_sampler}
 
 
@@ -696,6 +763,9 @@ def run(ctx):
     if _want(ctx, 'partition'):
         cases = partition_cases(ctx)
         ctx.run_cases(run_partition, cases, 'partition', sample_every=max(1, len(cases) // 3), chunksize=1)
+
+    if _want(ctx, 'rescaled'):
+        ctx.run_cases(run_scaled, scaled_cases(ctx), 'rescaled')
 
     if _want(ctx, 'rounds'):
         if q:
@@ -737,7 +807,7 @@ def run(ctx):
         'Distance node; distinct = distinct batches per configuration. partition: every data set over the column grid '
         'with non-constant columns x every composition into add_data calls x node prehistory. rounds: BFS over '
         'round/abort/reset operations with canonical node-state merging, every option executed from every reachable '
-        'state; seqs: all operation sequences without merging. non-trivial = every evaluated sub-case.')
+        'state; seqs: all operation sequences without merging. rescaled: fixed data sets x compositions, summaries / observation / test batches multiplied by 2^-30, 2^-12, 2^30. non-trivial = every evaluated sub-case.')
     ctx.assumptions += [
         'oracle = one scipy.spatial.distance.<metric>(u, v, ...) call per row (python loops for the two user callables), '
         'compared with rtol %g (C loop of cdist vs numpy row function on integer-valued inputs |x| <= 3)' % RTOL_DIST,
